@@ -17,7 +17,8 @@ def spec_unresolved(n, grp, edges):
     """exists a simple cycle of the connection multigraph that no connection on it resolves"""
     res = []
     # an async_requests connection contributes, beside its data connection, a zero-delay edge of its own
-    edges = [(a, b, k.rstrip('a')) for a, b, k in edges] + [(a, b, 'p') for a, b, k in edges if k.endswith('a')]
+    # ('A' = async_requests without any data connection: only that zero-delay edge)
+    edges = [(a, b, k.rstrip('a')) for a, b, k in edges if k != 'A'] + [(a, b, 'p') for a, b, k in edges if k.endswith('a') or k == 'A']
     def check(cyc):
         nodes = {edges[e][0] for e in cyc}
         for e in cyc:
@@ -39,19 +40,28 @@ def spec_unresolved(n, grp, edges):
 
 
 def make_case(n, grp, edges):
-    es = [dict(a=a, b=b, sa='eo', da='ti', kind=k.rstrip('a'), shift=1 if k.rstrip('a') == 'ts' else 0, init=False) for a, b, k in edges]
+    es = [dict(a=a, b=b, sa='eo', da='ti', kind=k.rstrip('a') if k != 'A' else 'p', shift=1 if k.rstrip('a') == 'ts' else 0, init=False) for a, b, k in edges]
     for e, (a, b, k) in zip(es, edges):
         if k.endswith('a'): e['async'] = True
+        if k == 'A': e['pure_async'] = True
     return dict(n=n, types=['hybrid'] * n, grp=[list(g) for g in grp], edges=es, until=1,
                 beh=[{'type': 'hybrid', 'self_steps': {}, 'outputs': {}} for _ in range(n)], init=[], maxloop=100)
 
 
 def impl_verdict(case):
+    # (simlib.run_case has a 30 s watchdog; a scenario that does not come back is tried a second time)
+    r = _impl_verdict(case)
+    if r[0] == 'hang': r = _impl_verdict(case)
+    return r
+
+
+def _impl_verdict(case):
     run = simlib.run_case(case, instant='all')
     began = any(l[0] == 'BEGIN' for l in run.log)
     if run.build_error is not None:
         return 'connect:' + type(run.build_error).__name__, None, began
     oc = run.outcome
+    if oc.startswith('Hang:'): return 'hang', None, began
     if oc.startswith('ScenarioError') and 'contains cycles' in oc:
         path = re.findall(r"sid='(S\d+)'", str(run.exc))
         return 'rejected', path, began
@@ -154,12 +164,25 @@ def run(out, info, tier, seed):
             if rng.random() < 0.6: edges.append((t_, rng.choice(gm + hm), rng.choice(['p', 'ts'])))
         rng.shuffle(edges)
         extra.append((n, tuple(grp), tuple(edges)))
+    # async_requests without data connections ('A'): rings and chains of agents, alone or next to ordinary connections
+    # (the model has no such connection: these cases are decided by the independent specification only)
+    for _ in range(200 if not exhaustive else 2500):
+        n = rng.randint(2, 4); grp = [rng.choice([(), (), (0,), (0, 0)]) for _ in range(n)]
+        edges = []
+        for _k in range(rng.randint(2, 5)):
+            a, b = rng.randrange(n), rng.randrange(n)
+            if a == b: continue
+            k = rng.choice(['A', 'A', 'A', 'p', 'ts', 'pa'])
+            if not any(x[0] == a and x[1] == b and x[2] == 'A' for x in edges) or k != 'A': edges.append((a, b, k))
+        if edges: extra.append((n, tuple(grp), tuple(edges)))
+    extra.append((2, ((), ()), ((0, 1, 'A'), (1, 0, 'A'))))
+    extra.append((3, ((0,), (0, 0), (0,)), ((0, 1, 'A'), (1, 2, 'A'), (2, 0, 'A'))))
     # two sibling groups, each with a weak connection and a plain connection back, linked into one long cycle
     extra.append((4, ((0,), (0,), (1,), (1,)), ((0, 1, 'w'), (1, 0, 'p'), (1, 2, 'p'), (2, 3, 'w'), (3, 2, 'p'), (3, 0, 'p'))))
     cases = cases + extra
     # witness of known finding F9 (non-convex: P -> R -> S leaves group G and comes back; weak edges inside G)
     cases.append((5, ((0,), (0,), (0,), (0,), ()), ((0, 4, 'p'), (4, 1, 'p'), (1, 3, 'w'), (3, 2, 'w'), (0, 2, 'w'))))
-    violations, mism, known = [], [], []
+    violations, mism, known, hangs = [], [], [], []
     hist = {}; nontriv = set(); n_eval = 0
     for (n, grp, edges) in cases:
         case = make_case(n, grp, edges)
@@ -171,7 +194,9 @@ def run(out, info, tier, seed):
         desc = dict(kind='cycle', n=n, groups=[list(g) for g in grp], edges=[list(e) for e in edges])
         if any(a != b for a, b, k in edges) and len(edges) >= 2: nontriv.add(json.dumps(desc))
         # monitor: the statement itself
-        if iv == 'incomparable':
+        if iv == 'hang' and not conv and 'F9h' in kf:
+            hangs.append(desc)
+        elif iv == 'incomparable':
             if not conv and 'F9' in kf: known.append(desc)
             else: violations.append(dict(desc, expected='rejected' if spec else 'accepted', observed=iv))
         elif iv not in ('accepted', 'rejected'):
@@ -181,7 +206,7 @@ def run(out, info, tier, seed):
         elif iv == 'rejected' and began:
             violations.append(dict(desc, expected='rejection before any step', observed='a simulator was stepped'))
         # correspondence with the model
-        if model is not None and iv in ('accepted', 'rejected', 'incomparable'):
+        if model is not None and iv in ('accepted', 'rejected', 'incomparable') and not any(k == 'A' for _, _, k in edges):
             start_order = sorted([f'S{k}' for k in range(n)], key=lambda s: (len(grp[int(s[1:])]) > 0, grp[int(s[1:])], int(s[1:])))
             mv, idx = model_verdict(case, model, start_order)
             if mv.split()[0] != iv:
@@ -202,6 +227,8 @@ def run(out, info, tier, seed):
         out.add_obligation('correspondence: extracted cycle_check = World.run verdict (and the reported path is a zero-delay closed walk)', not mism, f'{n_eval} scenarios')
         if mism: out.notes.append('first disagreements: ' + json.dumps(mism[:3]))
     for v in violations[:1]: out.violations.append(v)
+    if hangs and 'F9h' in kf:
+        out.known_hits.append((kf['F9h'], f"the cycle check did not return within 30 s (twice) on a non-convex scenario, e.g. {json.dumps(hangs[0])[:300]}"))
     if known and 'F9' in kf:
         out.known_hits.append((kf['F9'], f"AssertionError 'incomparable' from the cycle check on a non-convex scenario, e.g. {json.dumps(known[0])[:200]} ({len(known)} in scope)"))
     out.coverage = {'evaluations': n_eval, 'distinct_nontrivial': len(nontriv), 'exhaustive': exhaustive, 'traces_validated_against_impl': n_eval if model else 0,
